@@ -774,6 +774,7 @@ func (ex *Exec) checkInvariants(f *frame, st *State, li *loopInfo, at *ssa.Basic
 		genv := ex.frameEnv(f, st, f.entry)
 		genv.goal = true
 		genv.inLoopInv = true
+		genv.atLoopHeader(li)
 		tvv, err := genv.trans(inv.Expr)
 		t := tvv.t
 		if err != nil {
@@ -795,6 +796,7 @@ func (ex *Exec) assumeInvariants(f *frame, st *State, li *loopInfo) {
 	for _, inv := range ls.Invariants {
 		aenv := ex.frameEnv(f, st, f.entry)
 		aenv.inLoopInv = true
+		aenv.atLoopHeader(li)
 		tvv, err := aenv.trans(inv.Expr)
 		if err != nil {
 			continue // reported by checkInvariants
@@ -930,4 +932,20 @@ func readOnlyUse(v ssa.Value, depth int) bool {
 		}
 	}
 	return true
+}
+
+// atLoopHeader: in a loop invariant a name denotes the value the variable has at the loop header (a phi of the header, or
+// the latest definition in a dominating block) - in particular a parameter that was reassigned before the loop.
+func (env *Env) atLoopHeader(li *loopInfo) {
+	if li == nil || li.header == nil {
+		return
+	}
+	env.siteBlock = li.header
+	env.siteInstr = nil
+	for _, ins := range li.header.Instrs {
+		if _, isPhi := ins.(*ssa.Phi); !isPhi {
+			env.siteInstr = ins
+			break
+		}
+	}
 }
